@@ -1,6 +1,6 @@
 import Claripy.AST.IteReloc
 import ClaripyProofs.Lemmas.AST.Typing
-import ClaripyProofs.Lemmas.AST.RulesSound
+import ClaripyProofs.Lemmas.AST.RulesSound2
 import ClaripyProofs.Lemmas.AST.Beq
 import ClaripyProofs.Lemmas.AST.BoolWidth
 import ClaripyProofs.Props.C05
@@ -381,5 +381,38 @@ theorem burrowList_sound (mk : Op → List Expr → Expr) (hmk : MkSound mk) (en
     rw [burrow_sound mk hmk env fuel e (h e (List.mem_cons_self ..)),
       burrowList_sound mk hmk env fuel es (fun a ha => h a (List.mem_cons_of_mem _ ha))]
 end
+
+end Claripy.AST
+
+namespace Claripy.AST
+
+/-! ### a rewriting constructor: the rule table applied at the root -/
+/-- the right-hand side of the first proven schema (`R.all`) whose left-hand side is this node and whose side condition holds -/
+def firstRule (t : Expr) : Option Expr :=
+  (proposals t).findSome? fun p => R.all.findSome? fun s => if (s.lhs p == t) && s.side p then some (s.rhs p) else none
+
+/-- node constructor that rewrites by the rule table (one step at the root, like `simplifications.simplify`) -/
+def mkRules (op : Op) (args : List Expr) : Expr := (firstRule (.app op args)).getD (.app op args)
+
+theorem firstRule_sound (t r : Expr) (h : firstRule t = some r) (env : Env) (hwt : eval env t ≠ .err) : eval env r = eval env t := by
+  unfold firstRule at h
+  obtain ⟨p, _, hp⟩ := List.exists_of_findSome?_eq_some h
+  obtain ⟨s, hs, hsp⟩ := List.exists_of_findSome?_eq_some hp
+  split at hsp
+  · rename_i hc
+    simp only [Bool.and_eq_true, beq_iff_eq] at hc
+    simp only [Option.some.injEq] at hsp
+    subst hsp
+    have := all_sound s hs p env hc.2 (by rw [hc.1]; exact hwt)
+    rw [this, hc.1]
+  · simp at hsp
+
+/-- the rule-table constructor preserves the value of every well-typed node: C08's theorems apply to it -/
+theorem mkSound_rules : MkSound mkRules := by
+  intro env op args h
+  unfold mkRules
+  cases hr : firstRule (.app op args) with
+  | none => rfl
+  | some r => exact firstRule_sound _ r hr env h
 
 end Claripy.AST
